@@ -90,6 +90,7 @@ func runC06(r *Run) {
 // momentum drops all of it, every inserted momentum rebuilds it (shared by C06, C03, C14).
 func poolInvalidationRules(r *Run) {
 	r.Has("chain.(*accountPool).DeleteMomentum", "store recv.managers = make(map[types.Address]db.Manager)", "a rewound momentum invalidates every pool manager (they are layered on the stable state)")
+	r.Order("chain.(*momentumPool).RollbackTo", ".Pop", "chain.(*momentumEventManager).broadcastDeleteMomentum", "listeners are told after the momentum is gone: a reader that reacts to the notification (or runs in the unlocked window) must not be able to rebuild pool state on top of the momentum about to be popped")
 	r.MustCall("chain.(*accountPool).InsertMomentum", "chain.(*accountPool).rebuild", "after every inserted momentum the pool is rebuilt on the new stable state")
 	rb := "chain.(*accountPool).rebuild"
 	r.GuardLike(rb, "ne(db.NewMemDBManager(recv.stable.GetStableAccountDB(", "a block that no longer links to the new stable state aborts the rebuild of that account")
